@@ -62,6 +62,11 @@ func buildWorkload(p *modelParams) (forge.Eras, *gen.Mixed, uint32) {
 			e.PIP10 += d
 		}
 	}
+	if feat["oneway-early"] && !p.Literal {
+		// a configuration the daemon's own testing flags produce: the small-asset one-way activation (which also
+		// makes PEG a one-way destination) lies before PegNet 2.0, in the pooled-bank era
+		e.OneWaySmall = e.V4 + 6
+	}
 	if feat["snapshot-before-dev"] && !p.Literal {
 		// make sure a snapshot height lies between 2.0 and the developer-reward activation: staking snapshots start
 		// with 2.0, not with the later activations that also act once a day
@@ -194,6 +199,8 @@ func runModelCheck(c *Ctx, spec modelSpec) *orch.Outcome {
 	o.Extra["balance_changes_confirmed"] = orch.SumCounter(rs, "balance_changes_confirmed")
 	o.Extra["runs"] = len(jobs)
 	o.Extra["blocks_applied_twice_after_a_late_failure"] = orch.SumCounter(rs, "blocks_applied_twice_after_a_late_failure")
+	o.Extra["blocks_applied_twice_after_a_failure_in_mid_block"] = orch.SumCounter(rs, "blocks_applied_twice_after_a_failure_in_mid_block")
+	o.Extra["blocks_applied_twice_after_a_failed_history_write"] = orch.SumCounter(rs, "blocks_applied_twice_after_a_failed_history_write")
 	o.Extra["blocks_retried_after_a_failed_dblock_fetch"] = orch.SumCounter(rs, "blocks_retried_after_a_failed_dblock_fetch")
 	o.Extra["api_requests_between_blocks"] = orch.SumCounter(rs, "api_requests_between_blocks")
 	o.Extra["process_restarts_between_blocks"] = orch.SumCounter(rs, "process_restarts_between_blocks")
@@ -296,7 +303,7 @@ func init() {
 	registry["C03"] = func(c *Ctx) *orch.Outcome {
 		return runModelCheck(c, modelSpec{Level: "exploration",
 			Rule: "one evaluation = one well-signed batch (1..6 transactions, transfers and conversions mixed, amounts at balance-1 / balance / balance+1, several draws on one balance, self-credits, conversion then spending the converted asset, zero and 2^63-1 amounts) considered by the real daemon on top of an adaptively forged ledger; after the block every balance must equal the two-pass reference rule's prediction (executed completely or not at all), the recorded status must be the predicted one, and no balance column may be negative. Distinct non-trivial = (kind, verdict code, era) outcome classes observed.",
-			Profiles: func(c *Ctx) []modelParams { return featProfiles(c, 3, 64, 3, "c03", "c16") },
+			Profiles: func(c *Ctx) []modelParams { return featProfiles(c, 3, 64, 3, "c03", "c16", "c13") },
 			NonTrivial: func(rs []*orch.Result) (int64, map[string]interface{}) {
 				k := orch.UnionDistinct(rs, "outcome_classes")
 				ex := sumCounters(rs, "batch_outcomes_checked")
@@ -307,7 +314,7 @@ func init() {
 	registry["C07"] = func(c *Ctx) *orch.Outcome {
 		return runModelCheck(c, modelSpec{Level: "exploration",
 			Rule: "one evaluation = one conversion (all asset pairs of the era, amounts 1..balance incl. tiny ones, rates drifting every block) submitted at h; the reference rule holds it until the first later block with rates r and credits floor(in×S/D) with the rates of r (S=min(spot,avg), D=max(spot,avg) from PIP-10); compared with balances, recorded status height and recorded to_amount; additionally out×D_spot ≤ in×S_spot is asserted on the recorded amounts. Distinct non-trivial = conversions whose recorded amount was compared, of which those priced by an average ≠ spot are counted separately.",
-			Profiles: func(c *Ctx) []modelParams { return featProfiles(c, 3, 64, 2, "c07", "gaps", "avg-unavailable", "ungraded-snapshot") },
+			Profiles: func(c *Ctx) []modelParams { return featProfiles(c, 3, 64, 2, "c07", "gaps", "avg-unavailable", "ungraded-snapshot", "c16") },
 			NonTrivial: func(rs []*orch.Result) (int64, map[string]interface{}) {
 				ex := sumCounters(rs, "conversion_amounts_checked", "value_bounds_checked", "conversions_priced_by_average", "events_C07",
 					"unrated_blocks_with_conversions_waiting", "unrated_snapshot_blocks_from_v202_with_conversions_waiting", "waiting_batches_checked_in_unrated_blocks")
@@ -349,7 +356,18 @@ func init() {
 	registry["C13"] = func(c *Ctx) *orch.Outcome {
 		return runModelCheck(c, modelSpec{Level: "exploration",
 			Rule: "one evaluation = one conversion from a funded address into a destination of every class (pFCT, PEG, small-cap assets, ordinary assets), submitted at activation-3 … activation+2 of every activation; the admission rule of the statement decides executed / rejected(-2,-3,-4,-5) / dropped, compared with balances and recorded status. Distinct non-trivial = (verdict code, era) classes observed for conversions.",
-			Profiles: func(c *Ctx) []modelParams { return featProfiles(c, 3, 64, 0, "c13", "avg-unavailable", "c16") },
+			Profiles: func(c *Ctx) []modelParams {
+				ps := featProfiles(c, 3, 64, 0, "c13", "avg-unavailable", "c16")
+				// the one-way activation of the small assets and PEG placed before 2.0 (a configuration, not mainnet's)
+				n := 1
+				if c.Thorough() {
+					n = 6
+				}
+				for k := 0; k < n; k++ {
+					ps = append(ps, modelParams{Seed: c.Seed*1000 + 500 + int64(k), Profile: "mixed", Features: []string{"c13", "c16", "oneway-early"}, Window: thoroughWindow(c, k)})
+				}
+				return ps
+			},
 			NonTrivial: func(rs []*orch.Result) (int64, map[string]interface{}) {
 				k := distinctWithPrefix(rs, "outcome_classes", "conversion")
 				ex := sumCounters(rs, "batch_outcomes_checked")
@@ -436,7 +454,7 @@ func init() {
 	registry["C04"] = func(c *Ctx) *orch.Outcome {
 		return runModelCheck(c, modelSpec{Level: "exploration",
 			Rule: "one evaluation = one block applied by the real daemon; per asset, the observed change of total supply must equal the sum of the block's issuance/destruction events (mining, staking, holder and developer payouts, FCT burns, conversions, bank yield/refund, burn-address transfers, one-time adjustments) computed by the reference rules, and every address/asset balance must equal the prediction (so nobody outside the block's events changes; a transfer's debit equals its credits). Distinct non-trivial = (event kind, era) pairs observed.",
-			Profiles: func(c *Ctx) []modelParams { return stdProfiles(c, 3, 64, "busy", "c03", "c13") },
+			Profiles: func(c *Ctx) []modelParams { return stdProfiles(c, 3, 64, "busy", "c03", "c13", "c16") },
 			NonTrivial: func(rs []*orch.Result) (int64, map[string]interface{}) {
 				k := orch.UnionDistinct(rs, "event_kinds")
 				return int64(len(k)), map[string]interface{}{"event_kind_era_pairs": k, "supply_deltas_checked": orch.SumCounter(rs, "supply_deltas_checked")}
